@@ -43,6 +43,11 @@ LIBM1 = {"sin": "Lsin", "cos": "Lcos", "tan": "Ltan", "asin": "Lasin",
 EXC = {"TypeError", "ValueError", "ZeroDivisionError", "OverflowError",
        "AttributeError", "IndexError", "KeyError", "RuntimeError"}
 
+# function values that may appear in correspondence case expressions (see vlib/basis.py and
+# B64.b64_basis_call): name -> VFun id
+EXTERN_FUN = {"bf_zero": 1, "bf_one": 2, "bf_x": 3, "bf_x2": 4, "bf_x3": 5, "bf_sin": 6, "bf_cos": 7,
+              "bf_sin2": 8, "bf_cos2": 9, "bf_exp": 10, "bf_sqrt": 11}
+
 def coq_str(s):
     if any(ord(c) > 127 for c in s):
         raise Unsupported("non-ascii string literal")
@@ -268,6 +273,10 @@ class FT:
             how = self.tr.ensure_hard(self, ("global", g[1], g[0]))
             if how != "done": fail(n, "global in a recursive cycle")
             return self.tr.global_coq(g)
+        if x in EXTERN_FUN:
+            # a Python function value from the fixed menu vlib/basis.py (basis functions for
+            # CurveFitting.general_fitting); interpreted by f_call of the FloatOps instance
+            return "(VFun %d%%positive [])" % EXTERN_FUN[x]
         if x == "pi" and self.mod.imports.get("pi", (None,))[0] == "math":
             return "(VFloat (f_pi fo))"
         fail(n, "unknown name %s" % x)
